@@ -135,4 +135,54 @@ def nooaOf (o : Option Val) : Option Val :=
   | some (.obj fs) => lookup fs "not_on_or_after"
   | _ => none
 
+/-- the parsed Response as `correctly_signed_response` sees it: only whether it carries a `ds:Signature` -/
+def respV (signed : Bool) : Val := .obj [("signature", if signed then .obj [] else .none)]
+
+/-- externals of `correctly_signed_response`: the parser hands back the Response object; `_check_signature` (C02/C03:
+    what is covered, by which key) either returns or raises `SignatureError` (`sigOk`) -/
+def csrExt (signed sigOk : Bool) : Ext := fun f args =>
+  match f, args with
+  | "samlp.any_response_from_string", [_] => .ok (respV signed)
+  | "class_name", [_] => .ok (.str "urn:oasis:names:tc:SAML:2.0:protocol:Response")
+  | "._check_signature", [_, _, _, _, _] => if sigOk then .ok (respV signed) else .raise "SignatureError"
+  | f, _ => .stuck ("external " ++ f)
+
+/-- the two signature decisions at the head of `Sp.loads` -/
+def sigGate (s : Sp.Sig) (requireRespSig : Bool) : Option Sp.Err :=
+  if s.present && s != .valid then some .sigBadResponse
+  else if !s.present && requireRespSig then some .sigMissingResponse
+  else none
+
+/-- the caller's outstanding requests as a Python dict: request id ↦ came_from -/
+def encOuts (outs : List (String × String)) : List (String × Val) := outs.map (fun p => (p.1, Val.str p.2))
+
+/-- `self` as `AuthnResponse.loads` sees it AFTER `self._loads(...)` returned (which parses the message and records
+    `in_response_to`) -/
+def selfLoads (asynchop : Bool) (irt : Option String) (outs : List (String × String)) (allowUns : Bool) : List (String × Val) :=
+  [("asynchop", .bool asynchop), ("in_response_to", optStr irt), ("outstanding_queries", .obj (encOuts outs)),
+   ("allow_unsolicited", .bool allowUns), ("came_from", .none)]
+
+/-- externals: `_loads` (signature check and parsing: returns or raises), and the comparison of the subject
+    confirmations' InResponseTo (`True` = all agree; `AttributeError` when an assertion has no Subject) -/
+def loadsExt (sigR chk : R Val) : Ext := fun f args =>
+  match f, args with
+  | "._loads", [_, _, _, _] => sigR
+  | ".check_subject_confirmation_in_response_to", [_, _] => chk
+  | f, _ => .stuck ("external " ++ f)
+
+def cameFromOf (o : Option Val) : Option Val :=
+  match o with
+  | some (.obj fs) => lookup fs "came_from"
+  | _ => none
+
+def obsL (fl : Flow) : Result × Option Val :=
+  match fl with
+  | .normal e => (.value .none, lookup e "self")
+  | .ret v e => (.value v, lookup e "self")
+  | .raise c e => (.raised c, lookup e "self")
+  | .brk _ => (.stuck "break outside a loop", none)
+  | .cont _ => (.stuck "continue outside a loop", none)
+  | .stuck w => (.stuck w, none)
+
+
 end PyTie
